@@ -484,6 +484,14 @@ theorem direct_writes_only_switch_off :
 /-- **table theorem**: `wrap.clear()` is only used on a template original and on the return_this clone -/
 theorem clear_sites : clearSites = ["template_function", "template_function2", "process_return_this"] := by decide +kernel
 
+/-- **table theorem**: in every emitter's `wrap_namespace`, each loop over the namespaces or classes of a container decides
+    from the wrap flag of the namespace / class ITSELF, for the emitter's own language (never from the enclosing node's flag,
+    never from another language's); and every emitter has both loops -/
+theorem container_guards_on_the_member :
+    containerGuards.all (fun r => r.2.2.1 == 1 && r.2.2.2 == r.1) = true ∧
+    (List.range 4).all (fun em => containerGuards.any (fun r => r.1 == em && r.2.1 == 0) &&
+                                  containerGuards.any (fun r => r.1 == em && r.2.1 == 1)) = true := by decide +kernel
+
 /-! ### non-vacuity -/
 
 example : anyFlag .lua (.cont ⟨true, false, true, false, false⟩
